@@ -138,7 +138,7 @@ def run_C07(ctx):
     ctx.l2_phase("cartesian-python-layer", "Session", consts, ("l2replay", "h_c07_cartesian"), invariants=["Closed"],
                  require_actions=["CartesianOp", "StoreAux"], sample_cases=(15000 if ctx.quick() else 200000), timeout=900)
     ctx.chain_phase("chains-code-to-spec", (4000 if ctx.quick() else 60000), 5, ops={"comb"})
-    ctx.pychain_phase("python-chains-code-to-spec", (4000 if ctx.quick() else 60000), 5, ops={"comb"})
+    ctx.pychain_phase("python-chains-code-to-spec", (4000 if ctx.quick() else 60000), 5, ops={"comb", "argcomb", "cartesian"})
     return ctx.finish(assumptions=["ak.cartesian is checked for two operands, axis 0 / 1 / -1, list and dict forms; option-type and "
                                    "deeper operands are outside this model (Unspec)", L2_TRUSTED])
 
@@ -211,7 +211,7 @@ def run_C08(ctx):
                   require_actions=["ConcatOp", "SameValueOp", "StoreAux"],
                   max_cases=None if ctx.quick() else 3000000)
     ctx.chain_phase("chains-code-to-spec", (4000 if ctx.quick() else 60000), 5, ops={"concatself", "same"})
-    ctx.pychain_phase("python-chains-code-to-spec", (4000 if ctx.quick() else 60000), 5, ops={"concat0", "concat1", "same", "maysame"})
+    ctx.pychain_phase("python-chains-code-to-spec", (4000 if ctx.quick() else 60000), 5, ops={"concat0", "concat1", "concatperm", "same", "maysame"})
     return ctx.finish(assumptions=["ak.concatenate(axis=0) is replayed as its C++ call sequence mergeable/mergemany/merge_as_union/simplify_uniontype",
                                    "leaf values are small integers representable in every dtype used"])
 
@@ -404,7 +404,7 @@ def run_C10(ctx):
                             SliceTuples="RandomSubset(%d, %s)" % (6 if q else 20, FIELD_TUPLES))
     ctx.tlc_phase("fields", "Session", consts, invariants=["Refines", "Closed"], constraint="SmallEnough", seed_tlc=True,
                   require_actions=["SliceOp", "SetFieldOp", "WrapRecord", "ToListOp"])
-    ctx.pychain_phase("python-chains-code-to-spec", (4000 if ctx.quick() else 60000), 5, ops={"zip"})
+    ctx.pychain_phase("python-chains-code-to-spec", (4000 if ctx.quick() else 60000), 5, ops={"zip", "field", "withfield"})
     return ctx.finish(assumptions=["ak.zip/unzip/with_field broadcasting are Python-layer functions (L2); here the C++ API below them: "
                                    "getitem_field(s), field projections inside slices, setitem_field",
                                    "index-like keys ('0') on named records and projections through unions are Unspec"])
